@@ -74,3 +74,18 @@ Definition pin_of_spki (spki : bytes) : bytes := b64enc (sha256 spki).
 (** Callback addresses given by the user keep their port; others get the BOUND port. *)
 Definition with_port (a : bytes) (has_port : bool) (bound : bytes) : bytes :=
   if has_port then a else (if existsb (N.eqb 58) a then [91] ++ a ++ [93] else a) ++ [58] ++ bound.
+
+(** The chain of sources [c2url] consults, in order, named as the translator
+    (translator/c2chain) finds them in Server.c2URL of the working tree:
+    [form_c2] is r.Form.Get(C2Param), [hdr_c2] is r.Header.Get(C2Param),
+    [host_ascii] is idna.ToASCII(r.Host), [sni] is r.TLS.ServerName. *)
+From Coq Require Import String.
+Definition model_c2_sources : list string :=
+  ["r.Form.Get(C2Param)"; "r.Header.Get(C2Param)"; "idna.ToASCII(r.Host)"; "r.TLS.ServerName"]%string.
+Definition c2_sources_match (found : list string) : bool :=
+  (fix eqs (a b : list string) : bool :=
+     match a, b with
+     | [], [] => true
+     | x :: a', y :: b' => String.eqb x y && eqs a' b'
+     | _, _ => false
+     end) found model_c2_sources.
